@@ -542,8 +542,11 @@ def rule_12_8(rep, fx):
     lifes = [(bb, 'term') for bb, t in up.calls() if callee_res(t).endswith('BTreeMap::<K, V, A>::insert') and has_field(og.of_operand(t['args'][0], bb, 'term'), 'participant_last_life_signs')]
     ok = bool(ins) and not weak and bool(lifes)
     # the proxy is stored on exactly the paths on which the life sign is refreshed (the accepting ones)
+    # (before or after it: the two inserts are independent)
     for l in lifes:
-        ok = ok and P.every_path_passes(None, l, via_pos=ins, from_entry=True)
+        before = P.every_path_passes(None, l, via_pos=ins, from_entry=True)
+        after = not any(P.can_reach(l, (r, 'term'), avoid_pos=ins) for r in up.return_blocks())
+        ok = ok and (before or after)
     rep.check(ok, 'R12.8', 'update_participant/stores-latest', 'participant_proxies.insert(guid.prefix, data.clone()) on every accepting path',
               'update_participant does not overwrite the stored proxy with the announced data on every accepting path (inserts: %d, non-overwriting forms: %s): the participant keeps '
               'being judged by the lease of an earlier announcement - dropped while alive after it lengthened its lease, kept after it shortened it' % (len(ins), weak), up.where())
